@@ -163,7 +163,9 @@ func runTestCasesForServer(
 			for j := i; j < len(testCases); j++ {
 				results.setOutcome(testCases[j].Request.TestName, true, err)
 			}
-			return
+			// Still wait below for the responses to requests already sent, and for
+			// the rest of the server's stderr (it may hold feedback for this batch).
+			break
 		}
 		req := proto.Clone(testCase.Request).(*conformancev1.ClientCompatRequest) //nolint:errcheck,forcetypeassert
 		req.Host = resp.Host
